@@ -86,9 +86,12 @@ pub fn run(cfg: &Cfg, col: &mut Collector) {
     // range placed at statement position k of n (C07, C08)
     let mut emit_fail = Vec::new();
     let sizes: Vec<usize> = if cfg.thorough() { (1..=12).chain([40]).collect() } else { (1..=6).collect() };
+    let mut round = 0usize;
     for n_stmts in sizes {
         for k in 0..n_stmts {
-            let form = rng.below(8) as usize;
+            // every PC-relative form in turn (BR, LD, LDI, LEA, ST, STI, JSR, CALL)
+            let form = round % 8;
+            round += 1;
             let bits = match form {
                 6 => 11,
                 7 => 10,
@@ -143,6 +146,7 @@ pub fn run(cfg: &Cfg, col: &mut Collector) {
                 ("fail_position", J::I(k as i64)),
                 ("failing_word_index", J::I(failing_index as i64)),
                 ("reason", J::s(&why)),
+                ("form", J::s(match &refstmt { Item::Stmt { stmt, .. } => stmt.form(), _ => "?" })),
             ]));
         }
     }
